@@ -133,6 +133,18 @@ def run(spec, out):
             outs = None if case.outputs is None else [copy_expr(e, ren) for e in case.outputs]
             kw = {ren.get(k, k): v for k, v in case.kwargs.items()}
             relate("rename", case, call(case), call(case, ins, outs, kwargs=kw), b, inexact)
+        # ---- (1b) stating every axis size redundantly (consistent keyword sizes) changes nothing
+        kw_all = dict(case.kwargs)
+        for nme in names:
+            vs = case.var_sizes.get(nme)
+            if vs is None or nme in kw_all or nme in case.note.get("fixed_vars", ()):
+                continue
+            if case.var_group.get(nme) is None:
+                kw_all[nme] = int(vs[0])
+            elif len(vs) > 0:
+                kw_all[nme] = tuple(int(v) for v in vs)
+        if kw_all != case.kwargs:
+            relate("redundant-sizes", case, call(case), call(case, kwargs=kw_all), b, inexact)
         if case.outputs is None or case.family == "update":
             continue  # position relations need an explicit output (update ops: the output mirrors the target by rule)
         concat = any(isinstance(n, Cat) for e in list(case.inputs) + list(case.outputs) for n in walk(e))
@@ -270,7 +282,7 @@ def run(spec, out):
 
 def finalize(agg, tier, seed):
     c = agg.counters
-    for r in ("rename", "input-permute", "output-permute", "group-input", "ungroup-input", "group-output", "inversion", "composition"):
+    for r in ("rename", "redundant-sizes", "input-permute", "output-permute", "group-input", "ungroup-input", "group-output", "inversion", "composition"):
         if c.get(f"hold:{r}", 0) < 20:
             agg.inconclusive.append(f"relation {r}: only {c.get(f'hold:{r}', 0)} holding instances observed")
     return {"relations": {k[9:]: int(v) for k, v in c.items() if k.startswith("relation:")}}
